@@ -402,7 +402,10 @@ class ExprMem(Expr):
             segm = self.segm.copy()
         else:
             segm = None
-        return ExprMem(arg, size = self.size, segm = segm)
+        m = ExprMem(arg, size = self.size, segm = segm)
+        # (the evaluator marks unknown memory cells as terminal)
+        m.is_term = self.is_term
+        return m
 
 
 op_assoc = ['+', '*', '^', '&', '|']
